@@ -44,6 +44,7 @@ for patch in sorted(glob.glob(os.path.join(out, "patch*.diff"))):
         e = dict(os.environ, VERIF_REPO=repo, VERIF_EVIDENCE_DIR=ev, VERIF_REPLAY_DIR=rp)
         t0 = time.time()
         c = subprocess.run(["/verif/check", prop, tier], env=e, capture_output=True, text=True)
+        open("/tmp/try_seeded_last.out", "w").write(c.stdout + "\n--- stderr ---\n" + c.stderr)
         caught = c.returncode == 1 and ("VIOLATION property=%s" % prop) in c.stdout
         classes = [l.split(": ", 1)[1] for l in c.stdout.splitlines() if l.startswith("violation class:")]
         print("%s patch%s: demo clean=%s, suite with patch=%s, demo with patch=%s => %s; check %s %s: %s (rc=%d, %.0fs) %s" % (
